@@ -177,6 +177,9 @@ func checkC13(c *fw.Ctx) {
 		if cst, ok := r.Results[0].(*ssa.Const); ok && cst.Value == nil {
 			return nil
 		}
+		if fw.AlwaysNilResult(r.Results[0]) {
+			return nil // `return reject(...)`: a refusal built by a helper that never hands back a request
+		}
 		return []fw.SuccessPath{{Ret: r}}
 	}
 	c.CheckGate(rule, verify, "VerifyHTTPRequest", fw.GuardCallErrNil("readHTTPRequest", fw.NameIs("gmsl/fclient.readHTTPRequest")), succ)
